@@ -2,6 +2,7 @@ import Ruint.Model.Modular
 import Ruint.Gen.WordsValue
 import Ruint.Model.ModularLimbs
 import Ruint.Gen.WordsUintMod
+import Ruint.Gen.WordsGcd
 /-! Driver for C10: evaluates the model (`Ruint.Modular.*`) and the spec (ℕ arithmetic: `%`, square-and-multiply
     most-significant-bit first, `Nat.gcd` + extended Euclid on ℤ). -/
 open Ruint Ruint.Modular
@@ -89,7 +90,9 @@ def handle (args : List String) (impl : String) : String × String :=
         let l := ModularL.reduceMod bits (u bits x) (u bits m)
         (if l = some (u bits (Ruint.Gen.val_reduce_mod bits (nlimbs bits) x m)) then outL l else "model-levels-disagree " ++ outL l,
          toHex (if m = 0 then 0 else x % m))
-    | "inv" => (outOO (invMod bits x m), outO (if bits = 0 then none else invSpec x m))
+    -- `Uint::inv_mod` GENERATED from src/modular.rs + algorithms/gcd/mod.rs in value mode (`Props/C10.gen_inv_mod_eq`)
+    | "inv" => (outOO (if x < 2 ^ bits ∧ m < 2 ^ bits then Ruint.Gen.val_uint_inv_mod (m + 2) bits (nlimbs bits) x m
+                       else invMod bits x m), outO (if bits = 0 then none else invSpec x m))
     | "invtr" =>
         -- impl = `<result> | <answers of the real LehmerMatrix::from along the loop>`; the model prints its own
         -- matrices (model of `Matrix::from`, C12); the spec column judges the result part
